@@ -67,6 +67,12 @@ theorem pos_postfixLike (x : Expr) (side : Side) (hs : side = .Left ∨ side = .
    | bin o _ _ => cases o <;> simp only [Expr.prec, Expr.lvl] at h ⊢ <;> revert h <;> decide
    | _ => simp only [Expr.prec, Expr.lvl] at h ⊢ <;> revert h <;> decide)
 
+theorem pos_arg (x : Expr) (h : needParen x.prec callArgPrec callArgSide = false) : x.lvl ≤ 14 := by
+  cases x with
+  | un o _ => cases o <;> simp only [Expr.prec, Expr.lvl] at h ⊢ <;> revert h <;> decide
+  | bin o _ _ => cases o <;> simp only [Expr.prec, Expr.lvl] at h ⊢ <;> revert h <;> decide
+  | _ => simp only [Expr.prec, Expr.lvl] at h ⊢ <;> revert h <;> decide
+
 /-- the extra parentheses of the conditional's last operand go around an unparenthesised assignment -/
 theorem falseIsAssignment_spec (x : Expr) (h : falseIsAssignment x = true) :
     needParen x.prec precTernaryConditional ternFalseSide = false ∧ x.lvl = 14 := by
@@ -76,8 +82,9 @@ theorem falseIsAssignment_spec (x : Expr) (h : falseIsAssignment x = true) :
 
 /-! ## Well-formed trees (the shapes the partial theorem covers) -/
 
-/-- every literal prints as one token that reads back as itself; no assignment in the middle of a conditional;
-no call node (not covered by the proof yet) -/
+-- `WF`: every literal prints as one token that reads back as itself; no assignment in the middle of a conditional
+-- (calls are calls without template arguments — the model has no others)
+mutual
 def WF : Expr → Prop
   | .lit n => LitOk n = true
   | .id _ => True
@@ -86,7 +93,11 @@ def WF : Expr → Prop
   | .tern c a b => WF c ∧ WF a ∧ WF b ∧ a.lvl ≠ 14
   | .sub o i => WF o ∧ WF i
   | .mem o _ => WF o
-  | .call _ _ => False
+  | .call f args => WF f ∧ WFA args
+def WFA : Args → Prop
+  | .nil => True
+  | .cons e r => WF e ∧ WFA r
+end
 
 theorem litOk_toks (n : String) (h : LitOk n = true) : toks (litPiecesT n) = [.lit n] := by
   unfold LitOk at h
@@ -99,9 +110,9 @@ theorem litOk_toks (n : String) (h : LitOk n = true) : toks (litPiecesT n) = [.l
   · simp at h
 
 /-- tokens an operand can start with -/
-def GoodStart (t : Tok) : Prop := t ≠ .p .Equals ∧ t.isLt = false ∧ t.isGt = false
+def GoodStart (t : Tok) : Prop := (t ≠ .p .Equals ∧ t.isLt = false ∧ t.isGt = false) ∧ t ≠ .p .RightParen
 
-theorem operandStart_of {t : Tok} {ts : List Tok} (h : GoodStart t) : OperandStart (t :: ts) := h
+theorem operandStart_of {t : Tok} {ts : List Tok} (h : GoodStart t) : OperandStart (t :: ts) := h.1
 
 theorem toks_un_prefix (op : UnOp) (inner : List Piece) :
     toks (unPiece op :: (if startsWithSign op inner then Piece.sp :: inner else inner)) = unTok op :: toks inner := by
@@ -165,6 +176,16 @@ theorem head_fmt : (e : Expr) → WF e → ∀ outer side, ∃ t ts', toks (fmtS
         cases hpx : needParen o.prec precArraySubscript subObjectSide with
         | true => exact Or.inl rfl
         | false => exact Or.inr (pos_postfixLike o _ (Or.inl rfl) hpx)
+      | .call f args, hwf =>
+        simp only [fmtSub]
+        have : needParen precCall topPrec topSide = false := by decide
+        rw [this, wrap_false]
+        obtain ⟨t, ts', h1, h2, h3⟩ := head_fmt f hwf.1 callObjectPrec callObjectSide
+        simp only [toks_append, h1]
+        refine ⟨t, _, by simp; rfl, h2, fun _ => h3 ?_⟩
+        cases hpx : needParen f.prec callObjectPrec callObjectSide with
+        | true => exact Or.inl rfl
+        | false => exact Or.inr (pos_postfixLike f _ (Or.inl rfl) hpx)
       | .mem o n, hwf =>
         simp only [fmtSub]
         have : needParen precMember topPrec topSide = false := by decide
